@@ -20,5 +20,5 @@ ASSUMPTIONS = ["core id features are toggled only at the end of a walk (user act
 REQUIRED_CLASSES = {t: ["enable_after_edits", "unknown_key:enable", "unknown_key:disable",
                         "protected_attr:enabled", "protected_attr:disabled", "edit_with_disabled_feature",
                         "core_toggle", "cfg:route=featuredict", "cfg:noseg"] for t in ("quick", "thorough")}
-run_shard, replay, minimise = make(C10Oracle, quick=(2400, 30), thorough=(4800, 50), profile="features",
+run_shard, replay, minimise = make(C10Oracle, quick=(3200, 40), thorough=(6400, 60), profile="features",
                                    cfg_kwargs={"allow_optional": True}, refusal_bias=0.15)
